@@ -29,6 +29,7 @@ import (
 
 type c20Probe struct {
 	Src   string `json:"src"`
+	Via   string `json:"via"` // "gw": behind the shared gateway (its hardware address on the wire), else the source's own
 	Proto string `json:"proto"`
 	Port  int    `json:"port"`
 }
@@ -62,7 +63,11 @@ func c20Frame(p c20Probe, n int) []byte {
 	eth := make([]byte, 14)
 	copy(eth[0:6], macMe)
 	src := srcIP(p.Src)
-	copy(eth[6:12], net.HardwareAddr{0x02, 0, 0, 0, 1, src[len(src)-1]})
+	if p.Via == "gw" {
+		copy(eth[6:12], net.HardwareAddr{0x02, 0, 0, 0, 1, 0xfe})
+	} else {
+		copy(eth[6:12], net.HardwareAddr{0x02, 0, 0, 0, 1, src[len(src)-1]})
+	}
 	eth[12], eth[13] = 0x08, 0x00
 	var l4 []byte
 	proto := byte(6)
